@@ -1397,7 +1397,7 @@ pub fn prop() -> DiceProp {
         nightly: false,
         check_only: false,
         ndice: NDICE,
-        quick: (2400, 1),
+        quick: (4000, 1),
         thorough: (6000, 5),
         build,
         fixed,
